@@ -94,6 +94,10 @@ type FederationClient struct {
 	resumeId   string
 	hello      atomic.Pointer[HelloServerMessage]
 
+	// Protects "pendingMessages" and changes to "resumeId". Can be locked while
+	// "mu" and / or "helloMu" are held, so no other locks must be acquired and
+	// no messages must be sent while holding it.
+	pendingMu       sync.Mutex
 	pendingMessages []*ClientMessage
 
 	closeOnLeave atomic.Bool
@@ -514,8 +518,10 @@ func (c *FederationClient) processHello(msg *ServerMessage) {
 		case "no_such_session":
 			// Resume failed (e.g. remote has restarted), try to connect new session
 			// which may fail if the auth token has expired in the meantime.
+			c.pendingMu.Lock()
 			c.resumeId = ""
 			c.pendingMessages = nil
+			c.pendingMu.Unlock()
 			if err := c.sendHelloLocked(c.helloAuth); err != nil {
 				c.closeWithError(err)
 			}
@@ -534,7 +540,9 @@ func (c *FederationClient) processHello(msg *ServerMessage) {
 
 	c.hello.Store(msg.Hello)
 	if c.resumeId == "" {
+		c.pendingMu.Lock()
 		c.resumeId = msg.Hello.ResumeId
+		c.pendingMu.Unlock()
 		if c.reconnecting {
 			c.session.SendMessage(&ServerMessage{
 				Type: "event",
@@ -562,10 +570,11 @@ func (c *FederationClient) processHello(msg *ServerMessage) {
 			},
 		})
 
-		if count := len(c.pendingMessages); count > 0 {
-			messages := c.pendingMessages
-			c.pendingMessages = nil
-
+		c.pendingMu.Lock()
+		messages := c.pendingMessages
+		c.pendingMessages = nil
+		c.pendingMu.Unlock()
+		if count := len(messages); count > 0 {
 			log.Printf("Sending %d pending messages to %s for %s", count, c.URL(), c.session.PublicId())
 
 			c.helloMu.Unlock()
@@ -842,8 +851,10 @@ func (c *FederationClient) SendMessage(message *ClientMessage) error {
 }
 
 func (c *FederationClient) deferMessage(message *ClientMessage) {
-	c.helloMu.Lock()
-	defer c.helloMu.Unlock()
+	// Might be called while "helloMu" is locked (e.g. if sending the hello or
+	// room request failed), so a different mutex must be used here.
+	c.pendingMu.Lock()
+	defer c.pendingMu.Unlock()
 	if c.resumeId == "" {
 		return
 	}
